@@ -361,7 +361,7 @@ def finish(ctx: Ctx) -> int:
             )
     status = 0
     for key in sorted(unknown):
-        violation = unknown[key][0]
+        violation = min(unknown[key], key=lambda v: (len(repr(v["replay"])), repr(v["replay"])))
         replay = write_replay(ctx.prop, violation)
         print("  key=%s: %s" % (key, violation["what"]))
         print("VIOLATION property=%s replay=%s" % (ctx.prop, replay))
